@@ -39,7 +39,8 @@ struct FVis {
 	}
 	template<class V> void final(V&& v, MV const& m) {
 		constexpr int D = rank_of<V>; if(m.has_zero()) return;
-		if constexpr(is_mutable_view<V> && !std::is_const_v<std::remove_reference_t<V>>) { op("reinterpret_array_cast"); auto&& rv = v.template reinterpret_array_cast<short>(2); for(auto s2 : tuple_to_vec(rv.sizes())) mix(std::uint64_t(s2)); for(auto const& e : rv.elements()) mix(std::uint64_t(std::uint16_t(e))); }  // (the count-less form needs a user-supplied reinterpret_pointer_cast for fancy pointers: not part of this harness)
+		if constexpr(is_mutable_view<V> && !std::is_const_v<std::remove_reference_t<V>>) { op("reinterpret_array_cast(n)"); auto&& rv = v.template reinterpret_array_cast<short>(2); for(auto s2 : tuple_to_vec(rv.sizes())) mix(std::uint64_t(s2)); for(auto const& e : rv.elements()) mix(std::uint64_t(std::uint16_t(e)));
+			op("reinterpret_array_cast()"); auto&& ru = v.template reinterpret_array_cast<short>(); for(auto s2 : tuple_to_vec(ru.sizes())) mix(std::uint64_t(s2)); for(auto const& e : ru.elements()) mix(std::uint64_t(std::uint16_t(e))); }  // goes through the pointer type's own reinterpret_pointer_cast (ADL)
 		op("owning<int>");
 		multi::array<int, D, Alloc<int>> C(v); for(int e : C.elements()) mix(std::uint64_t(e)); mix(std::uint64_t(C == v)); mix(std::uint64_t(C != v));
 		{ multi::array<int, D, Alloc<int>> C2(C); C2.elements()[0] += 1; mix(std::uint64_t(C < C2)); mix(std::uint64_t(C2 <= C)); mix(std::uint64_t(C2() == C())); }
